@@ -68,5 +68,14 @@ InvObserverSane ==
 \* reachability goals (negated, to obtain witness scripts)
 NeverTwoAlerts   == \A p \in PEERS, nm \in NAMES : o.since[p][nm] < 2
 NeverMissed      == Reported(o)
+\* one peer, two metric names, both expired, both alerted once and both forgotten by a later check of the given kind
+TwoNamesCycle(kind) ==
+    /\ act.a = kind
+    /\ \E p \in PEERS : \E n1, n2 \in NAMES :
+          /\ n1 # n2
+          /\ \A nm \in {n1, n2} : o.since[p][nm] = 1 /\ o.last[nm][p] # NONE /\ obs.stored[nm][p] = 0
+NeverTwoNamesCycleCP    == ~TwoNamesCycle("checkpeers")
+NeverTwoNamesCycleAll   == ~TwoNamesCycle("checkall")
+NeverTwoNamesCycleWatch == ~TwoNamesCycle("watch")
 NeverWrapExpired == ~(\E nm \in NAMES, p \in PEERS : obs.n[nm][p] = W /\ s.cnt[nm][p] > W /\ Len(obs.alerts) > 0)
 =============================================================================
